@@ -310,15 +310,20 @@ def oracle_reference(arg, out):
 
 # ----------------------------------------------------------------------------------------
 PROBE_RE = re.compile(r'^<([^:>]*):(-?\d+):([^>]*)>$')
+_PROBE_SHAPES = None
 def is_probe(cmds):
     """exactly a program of c03_gen.order_probe (so that shrinking cannot turn it into something else)"""
-    from props.c03_gen import probe_header, PROBE_STEPS
-    from core import norm
-    for with_default in (True, False):
-        h = norm(probe_header(with_default))
+    global _PROBE_SHAPES
+    if not cmds or S(cmds[0][0]) != 'ENTRY':
+        return None
+    if _PROBE_SHAPES is None:
+        from props.c03_gen import probe_header, PROBE_STEPS
+        from core import norm
+        _PROBE_SHAPES = ([(wd, norm(probe_header(wd))) for wd in (True, False)], [norm(v) for v in PROBE_STEPS.values()])
+    headers, steps = _PROBE_SHAPES
+    for with_default, h in headers:
         if cmds[:len(h)] == h:
             rest = cmds[len(h):]
-            steps = [norm(v) for v in PROBE_STEPS.values()]
             while rest:
                 for stp in steps:
                     if rest[:len(stp)] == stp:
